@@ -32,10 +32,10 @@ def c_lit(l):
 
 def c_cond(c):
     k = c[0]
-    if k == "type":
-        return "(CType %d%%nat %s)" % (c[1], TAGS[c[2]])
-    if k in ("eqnil", "nenil", "var"):
-        return "(%s %d%%nat)" % ({"eqnil": "CEqNil", "nenil": "CNeNil", "var": "CVar"}[k], c[1])
+    if k in ("type", "typef"):
+        return "(%s %d%%nat %s)" % ("CType" if k == "type" else "CTypeF", c[1], TAGS[c[2]])
+    if k in ("eqnil", "nenil", "var", "eqnilf", "nenilf"):
+        return "(%s %d%%nat)" % ({"eqnil": "CEqNil", "nenil": "CNeNil", "var": "CVar", "eqnilf": "CEqNilF", "nenilf": "CNeNilF"}[k], c[1])
     if k == "opq":
         return "(COpq %d)" % c[1]
     if k == "not":
@@ -76,6 +76,10 @@ def c_stmt(s):
         return "(SFor %d %d %s)" % (s[1], s[2], c_block(s[3]))
     if k == "breakif":
         return "(SBreakIf %s %s)" % (c_cond(s[1]), c_block(s[2]))
+    if k == "assert":
+        return "(SAssert %s)" % c_cond(s[1])
+    if k == "returnif":
+        return "(SReturnIf %s %s %s)" % ("true" if s[1] else "false", c_cond(s[2]), c_block(s[3]))
     raise ValueError(k)
 
 
